@@ -98,19 +98,29 @@ func trunc(s string, n int) string {
 
 // goBuild reports why the Go toolchain rejects the packages (incl. their tests, which staticcheck lints too), or "".
 func goBuild(dir string, patterns ...string) string {
-	out, err := os.MkdirTemp("", "c03-build-")
+	outDir, err := os.MkdirTemp("", "c03-build-")
 	if err != nil {
 		return err.Error()
 	}
-	defer os.RemoveAll(out)
-	// -o <dir>/ keeps binaries of main packages out of the source tree
-	for _, args := range [][]string{{"build", "-o", out + "/"}, {"test", "-count=1", "-vet=off", "-run", "^$"}} {
+	defer os.RemoveAll(outDir)
+	run := func(args ...string) (string, bool) {
 		cmd := exec.Command("go", append(args, patterns...)...)
 		cmd.Dir = dir
 		out, err := cmd.CombinedOutput()
-		if err != nil {
-			return trunc(string(out), 2000)
+		return string(out), err == nil
+	}
+	// -o <dir>/ keeps binaries of main packages out of the source tree; without any main package
+	// that form is an error and the plain form writes nothing
+	if out, ok := run("build", "-o", outDir+"/"); !ok {
+		if !strings.Contains(out, "no main packages to build") {
+			return trunc(out, 2000)
 		}
+		if out, ok := run("build"); !ok {
+			return trunc(out, 2000)
+		}
+	}
+	if out, ok := run("test", "-count=1", "-vet=off", "-run", "^$"); !ok {
+		return trunc(out, 2000)
 	}
 	return ""
 }
